@@ -351,3 +351,105 @@ func reachesInLoop(from, to *ssa.BasicBlock, l *core.Loop) bool {
 	}
 	return false
 }
+
+type mapWrite struct {
+	field, method string
+	args          []string   // substrings of the rendered arguments (after the receiver), "" = any
+	guards        [][2]string // (substring of guard key, "T"/"F")
+	why           string
+}
+
+var frontendMapTable = []mapWrite{
+	{"DefaultHostMap", "AddHostnamePathMapping", []string{`"<default>"`, "Paths[", ".Backend.ID"}, [][2]string{{"DefaultHost(", "T"}, {"SSLPassthrough(", "F"}}, "paths of the default host serve requests whose host matched nothing"},
+	{"SSLPassthroughMap", "AddHostnameMapping", []string{".Hostname", ".Backend.ID"}, [][2]string{{`.Backend.ID != "")`, "T"}, {"SSLPassthrough(", "T"}, {`Path(`, "T"}}, "ssl-passthrough hosts are selected by SNI, root path only"},
+	{"HTTPSHostMap", "AddHostnamePathMapping", []string{".Hostname", "Paths[", ".Backend.ID"}, [][2]string{{`.Backend.ID != "")`, "T"}, {"SSLPassthrough(", "F"}, {"HasTLS(", "T"}}, "HTTPS serves only hosts with TLS that are not passthrough"},
+	{"HTTPSHostMap", "AddAliasPathMapping", []string{".Alias", "Paths[", ".Backend.ID"}, [][2]string{{`.Backend.ID != "")`, "T"}, {"SSLPassthrough(", "F"}, {"HasTLS(", "T"}}, "aliases follow the host"},
+	{"HTTPHostMap", "AddHostnamePathMapping", []string{".Hostname", "Paths[", ""}, [][2]string{{`.Backend.ID != "")`, "T"}}, "every path with a backend is served on HTTP (or redirected by its backend)"},
+	{"HTTPHostMap", "AddAliasPathMapping", []string{".Alias", "Paths[", ""}, [][2]string{{`.Backend.ID != "")`, "T"}}, "aliases follow the host"},
+	{"RedirToMap", "AddHostnamePathMapping", []string{".Hostname", "Paths[", ".RedirTo"}, [][2]string{{`.Backend.ID != "")`, "F"}, {`.RedirTo != "")`, "T"}}, "redirect-to paths have no backend"},
+	{"RedirToMap", "AddAliasPathMapping", []string{".Alias", "Paths[", ".RedirTo"}, [][2]string{{`.Backend.ID != "")`, "F"}, {`.RedirTo != "")`, "T"}}, "aliases follow the host"},
+	{"VarNamespaceMap", "AddHostnamePathMapping", []string{".Hostname", "Paths[", ""}, [][2]string{{"HasVarNamespace(", "T"}}, "namespace variable map covers every path when any host asks for it"},
+	{"RedirFromMap", "AddHostnameMapping", []string{".Redirect.RedirectHost", ".Hostname"}, [][2]string{{"SSLPassthrough(", "F"}, {`.Redirect.RedirectHost != "")`, "T"}}, "redirect-from maps the source name to this host"},
+	{"RedirFromMap", "AddHostnameMappingRegex", []string{".Redirect.RedirectHostRegex", ".Hostname"}, [][2]string{{"SSLPassthrough(", "F"}, {`.Redirect.RedirectHostRegex != "")`, "T"}}, "regex variant"},
+	{"TLSAuthList", "AddHostnameMapping", []string{".Hostname", `""`}, [][2]string{{"SSLPassthrough(", "F"}, {"HasTLSAuth(", "T"}, {`.CAVerify != "skip-check")`, "T"}}, "client certificate is verified unless skip-check"},
+	{"TLSNeedCrtList", "AddHostnameMapping", []string{".Hostname", `""`}, [][2]string{{"SSLPassthrough(", "F"}, {"HasTLSAuth(", "T"}, {"CAVerifyOptional(", "F"}}, "client certificate is required unless optional"},
+	{"TLSInvalidCrtPagesMap", "AddHostnameMapping", []string{".Hostname", ".TLS.CAErrorPage"}, [][2]string{{"HasTLSAuth(", "T"}, {`.TLS.CAErrorPage != "")`, "T"}}, "error page of invalid certificates"},
+	{"TLSMissingCrtPagesMap", "AddHostnameMapping", []string{".Hostname", ".TLS.CAErrorPage"}, [][2]string{{"HasTLSAuth(", "T"}, {`.TLS.CAErrorPage != "")`, "T"}, {"CAVerifyOptional(", "F"}}, "error page of missing certificates"},
+	{"RedirRootSSLMap", "AddHostnameMapping", []string{".Hostname", `""`}, [][2]string{{"SSLPassthrough(", "F"}, {`.RootRedirect != "")`, "T"}, {"WriteFrontendMaps$1(", "T"}}, "root redirect goes through https first when the root path redirects to ssl"},
+	{"RedirFromRootMap", "AddHostnameMapping", []string{".Hostname", ".RootRedirect"}, [][2]string{{"SSLPassthrough(", "F"}, {`.RootRedirect != "")`, "T"}}, "app-root"},
+}
+
+func init() {
+	addRule("C03", &core.Rule{ID: "C03.frontend-maps", Floor: 17, Run: frontendMaps,
+		Doc: "Reviewed table of every write into the frontend maps by WriteFrontendMaps: which map, keyed by which name (hostname, alias, redirect source, <default>), with which value, under which conditions (has a backend, passthrough, has TLS, redirect-to, tls-auth…). A write into another map, with another key/value, or under weaker/stronger conditions changes which backend a request reaches."})
+	addRule("C15", &core.Rule{ID: "C15.frontend-maps", Floor: 17, Run: frontendMaps,
+		Doc: "Shared with C03: HTTPS map entries exist exactly for non-passthrough hosts with TLS."})
+}
+
+func frontendMaps(c *core.Ctx) {
+	fn := c.Fn("haproxy", "config.WriteFrontendMaps")
+	if fn == nil {
+		return
+	}
+	seen := map[string]int{}
+	for _, s := range core.Calls(fn, false) {
+		cn := core.CalleeName(s.Common())
+		if !strings.Contains(cn, "haproxy/types.HostsMap).Add") {
+			continue
+		}
+		method := cn[strings.LastIndex(cn, ".")+1:]
+		a := s.Common().Args
+		recv := core.Key(a[0])
+		field := recv[strings.LastIndex(recv, ".")+1:]
+		id := field + "." + method
+		seen[id]++
+		var ent *mapWrite
+		for i := range frontendMapTable {
+			if frontendMapTable[i].field == field && frontendMapTable[i].method == method {
+				ent = &frontendMapTable[i]
+			}
+		}
+		if ent == nil {
+			c.Violated("frontend map write "+id, at(c, s.Instr), "a write into the frontend maps that is not in the reviewed table")
+			continue
+		}
+		var bad []string
+		for i, want := range ent.args {
+			if want == "" || i+1 >= len(a) {
+				continue
+			}
+			l := sliceLeaves(c.Env, a[i+1], 0)
+			if !strings.Contains(core.Key(a[i+1]), want) && !leavesContain(l, want) {
+				bad = append(bad, fmt.Sprintf("argument %d is `%s`, reviewed `…%s…`", i+1, core.Key(a[i+1]), want))
+			}
+		}
+		for _, g := range ent.guards {
+			if !guardedBy(s.Instr, has(g[0]), g[1] == "T") {
+				bad = append(bad, fmt.Sprintf("not under `%s`=%s", g[0], g[1]))
+			}
+		}
+		c.Check(len(bad) == 0, "frontend map write "+id, at(c, s.Instr), ent.why, strings.Join(bad, "; ")+" ("+ent.why+")")
+	}
+	for _, e := range frontendMapTable {
+		id := e.field + "." + e.method
+		c.Check(seen[id] == 1, "frontend map write "+id+" exists once", c.Pos(fn.Pos()), "", fmt.Sprintf("%d writes (reviewed: 1)", seen[id]))
+	}
+	// the HTTP value for passthrough hosts: the http port backend or the https redirect, never the TLS backend
+	for _, s := range core.Calls(fn, false) {
+		cn := core.CalleeName(s.Common())
+		if strings.HasSuffix(cn, "HostsMap).AddHostnamePathMapping") && strings.HasSuffix(core.Key(s.Common().Args[0]), ".HTTPHostMap") {
+			v := s.Common().Args[3]
+			ph, ok := v.(*ssa.Phi)
+			good := false
+			if ok {
+				var ks []string
+				for _, e := range ph.Edges {
+					ks = append(ks, core.Key(e))
+				}
+				j := strings.Join(ks, " | ")
+				good = strings.Contains(j, ".Backend.ID") && strings.Contains(j, "_redirect_https") && strings.Contains(j, "HTTPPassthroughBackend")
+			}
+			c.Check(good, "HTTP map value of a passthrough root path is the http-port backend or the https redirect", at(c, s.Instr), "", "value is `"+core.Key(v)+"`")
+		}
+	}
+}
